@@ -2,10 +2,13 @@
 
 proof  : lean/Pyunicorn/Properties/C16.lean about the model
          lean/Pyunicorn/Model/Events.lean of eventseries/event_series.py
-tie    : exact correspondence (rational canonical forms) of the Lean model with
+tie    : exact correspondence (rational canonical forms) of the Lean model *and* of the Lean
+         published formulas (esSpec / ecaFormula / ecaRateFormula) with
          `event_synchronization`, `event_coincidence_analysis`,
          `_eca_coincidence_rate`, `event_series_analysis` and
-         `make_event_matrix` of the working tree
+         `make_event_matrix` of the working tree; translate/arith_C16.json regenerates the
+         source's guards / comparisons / count arithmetic / denominators into
+         Generated/ArithC16.lean, the gen_* theorems state the model in terms of them
 search : the published counting formulas as plain loops in `Fraction`, the
          range / exchange / shift / rescaling relations on the implementation,
          the N×N matrix against the static pairwise calls, thresholding against
@@ -295,16 +298,24 @@ def run(ctx):
     quick = ctx.tier == "quick"
     ctx.rule = ("pair level: all pairs of binary series on "
                 f"{'6' if quick else '8'} slots (default options) + random pairs on 3-16 slots with "
-                "index / offset / quarter / irregular dyadic timestamps, taumax in {inf,0,.5,…,5}, "
-                "lag in {0,±.5,±1,2,-1.5}; matrix level: EventSeries objects N=2..5 × all "
-                "symmetrisations / windows; thresholding: integer data × quantiles k/8 / values / "
-                "types / defaults; distinct = distinct canonical request; non-trivial = both series "
-                "have >= 3 events (ES) / >= 1 event (ECA) / data not constant (thresholding)")
+                "index / offset / quarter / irregular / wide (gaps 2^-10..2^10) dyadic timestamps given as "
+                "float64 / float32 / int64 arrays, event series as int / bool / int8 / float arrays, "
+                "taumax in {inf,0,.5,...,5} or wide {2^-10,2^-4,64,2048}, lag in {0,+-.5,+-1,2,-1.5} or "
+                "wide {2^-10,-2^-4,100,-64,4096}; each request answered by the Lean model and by the Lean "
+                "published formula; matrix level: EventSeries objects N=1..6, T<=20 x all symmetrisations / "
+                "windows, default arguments, multi-step histories; thresholding: float64/float32/int data x "
+                "quantiles k/8, k/16 / values / types / defaults, scalar / array / list parameters, static "
+                "call and constructor (both axis orders); distinct = distinct canonical request; non-trivial "
+                "= both series have >= 3 events (ES) / >= 1 event (ECA) / data not constant (thresholding)")
     ctx.assumptions = [
         "event times / time stamps strictly increasing; event matrices binary",
-        "correspondence inputs are dyadic rationals (decisions exact in float64); float results "
-        "compared as canonical small rationals under tolerance 1e-9 (ES, squared) / 3e-7 (ECA, float32)",
-        "the division by sqrt((lx-2)(ly-2)) is outside the model (counts and squared norm are modelled)",
+        "correspondence inputs are dyadic rationals (decisions exact in float64 and, where used, float32); "
+        "float results compared as canonical small rationals under tolerance 1e-9 (ES, squared) / 3e-7 "
+        "(ECA, float32)",
+        "the division by sqrt((lx-2)(ly-2)) is modelled over the reals only (theorems es_strength_range, "
+        "esSymmOp_value); the executable model returns the counts and the squared norm",
+        "a caller editing an array returned by event_series_analysis (symmetrization='directed' returns the "
+        "cached matrix itself) is outside the histories checked",
     ]
     ctx.proofs()
     ES = EventSeries
@@ -343,10 +354,10 @@ def run(ctx):
         pairs += [(x, y) for x in vecs for y in vecs
                   if (sum(x) < 3 or sum(y) < 3) and rng.random() < 0.15]
     else:
-        pairs = [(x, y) for x in vecs for y in vecs if rng.random() < 0.35]
+        pairs = [(x, y) for x in vecs for y in vecs if rng.random() < 0.6]
     for x, y in pairs:
         cases.append((list(x), list(y), None, None, float("inf"), 0.0, "exhaustive"))
-    for _ in range(4000 if quick else 30000):
+    for _ in range(6000 if quick else 100000):
         T = rng.choice([3, 4, 5, 6, 7, 8, 9, 10, 12, 14, 16])
         x, y = gen_pair(rng, T)
         ts1, k1 = gen_timestamps(rng, T)
@@ -558,7 +569,7 @@ def run(ctx):
     # matrix level
     # ------------------------------------------------------------------
     reqs, impl = [], []
-    for c in range(300 if quick else 2500):
+    for c in range(500 if quick else 8000):
         N = rng.choice([1, 2, 3, 3, 4, 5, 6])
         T = rng.choice([4, 6, 8, 10, 12, 20])
         cols = []
@@ -705,7 +716,7 @@ def run(ctx):
     # thresholding
     # ------------------------------------------------------------------
     reqs, impl = [], []
-    for c in range(600 if quick else 6000):
+    for c in range(1000 if quick else 20000):
         N = rng.choice([1, 2, 3, 4])
         T = rng.choice([1, 2, 3, 4, 5, 6, 8, 9, 12, 17, 24, 33])
         span = rng.choice([2, 3, 6, 20])
